@@ -30,12 +30,12 @@ func GenNumber(t *rapid.T, vtype string) string {
 		if small {
 			return fmt.Sprint(rapid.Int64Range(-3, 3).Draw(t, "n"))
 		}
-		return fmt.Sprint(rapid.Int64Range(-(1 << 40), 1<<40).Draw(t, "n"))
+		return fmt.Sprint(rapid.Int64Range(-(1<<40), 1<<40).Draw(t, "n"))
 	case "bigint":
 		if small {
 			return fmt.Sprint(rapid.Int64Range(-3, 3).Draw(t, "n"))
 		}
-		hi := rapid.Int64Range(-(1 << 50), 1<<50).Draw(t, "hi")
+		hi := rapid.Int64Range(-(1<<50), 1<<50).Draw(t, "hi")
 		lo := rapid.Int64Range(0, 999999999999).Draw(t, "lo")
 		if rapid.Bool().Draw(t, "wide") {
 			return fmt.Sprintf("%d%012d", hi, lo)
@@ -46,7 +46,7 @@ func GenNumber(t *rapid.T, vtype string) string {
 		if small {
 			k = rapid.Int64Range(-16, 16).Draw(t, "k")
 		} else {
-			k = rapid.Int64Range(-(1 << 23), 1<<23).Draw(t, "k")
+			k = rapid.Int64Range(-(1<<23), 1<<23).Draw(t, "k")
 		}
 		neg := k < 0
 		if neg {
@@ -62,7 +62,7 @@ func GenNumber(t *rapid.T, vtype string) string {
 		if small {
 			unscaled = rapid.Int64Range(-3, 3).Draw(t, "u") * 500000
 		} else {
-			unscaled = rapid.Int64Range(-(1 << 40), 1<<40).Draw(t, "u")
+			unscaled = rapid.Int64Range(-(1<<40), 1<<40).Draw(t, "u")
 		}
 		neg := unscaled < 0
 		if neg {
@@ -120,6 +120,10 @@ func GenBlocks(t *rapid.T, k Kind, minBlocks, maxBlocks, maxOps int, delPct int)
 	for i := range out {
 		n := rapid.IntRange(0, maxOps).Draw(t, "nops")
 		maxOrd := rapid.SampledFrom([]uint64{1, 3, 6, 6, 20}).Draw(t, "maxord")
+		if rapid.IntRange(0, 24).Draw(t, "bigblock") == 0 {
+			n = rapid.IntRange(13, 40).Draw(t, "nbig") // long block, many ordinal ties
+			maxOrd = rapid.SampledFrom([]uint64{1, 2, 4}).Draw(t, "maxordbig")
+		}
 		for j := 0; j < n; j++ {
 			out[i] = append(out[i], GenOp(t, k, maxOrd, delPct))
 		}
